@@ -1,4 +1,5 @@
 """Native helper units (cfg verif_replay): witness searches and oracle sanity checks. Never proof."""
+import fcntl
 import os
 import re
 import subprocess
@@ -23,12 +24,19 @@ def run_native(snapshot, native_target, spec, timeout=900):
     env["RUSTFLAGS"] = (env.get("RUSTFLAGS", "") + " --cfg verif_replay -A warnings").strip()
     test = "%s::%s::%s" % (spec["modpath"], modname, spec["test"])
     cmd = ["cargo", "test", "--offline", "--release", "--lib", test, "--", "--exact", "--nocapture", "--test-threads", "1"]
-    try:
-        p = subprocess.run(cmd, cwd=snapshot, env=env, stdout=subprocess.PIPE, stderr=subprocess.STDOUT, text=True,
-                           timeout=timeout)
-        out = p.stdout
-    except subprocess.TimeoutExpired:
-        return {"status": "timeout", "summary": "native unit timed out", "cmd": " ".join(cmd)}
+    # the target directory is shared between checks (dependency crates are built once); two checks running at the same time
+    # build DIFFERENT snapshots of the crate into it, so build + run of a unit hold an exclusive lock on the directory
+    os.makedirs(native_target, exist_ok=True)
+    with open(os.path.join(native_target, ".verif-lock"), "w") as lk:
+        fcntl.flock(lk, fcntl.LOCK_EX)
+        from . import run_kani as _rk
+        _rk.force_rebuild_if_other_snapshot(native_target, snapshot)
+        try:
+            p = subprocess.run(cmd, cwd=snapshot, env=env, stdout=subprocess.PIPE, stderr=subprocess.STDOUT, text=True,
+                               timeout=timeout)
+            out = p.stdout
+        except subprocess.TimeoutExpired:
+            return {"status": "timeout", "summary": "native unit timed out", "cmd": " ".join(cmd)}
     m = re.search(r"VERIF-NATIVE: (ok|disagree) (.*)", out)
     if not m:
         return {"status": "error", "summary": "no VERIF-NATIVE line:\n" + out[-2000:], "cmd": " ".join(cmd)}
